@@ -12,7 +12,7 @@ import (
 
 func init() {
 	register(&propDef{
-		ID: "C10",
+		ID:          "C10",
 		Explanation: "Decides the error discipline and buffer ownership on every path of generated and runtime code: R1 every statement the generator can emit that assigns the render error from a call (writes, literal writes, nested Render, RenderAttributes/CSS/Script items, expression evaluation) is immediately followed by an emitted `if err != nil { return … }` (all GEM emission paths, incl. the literal-closing template of the range writer); R2 expression evaluations are followed by the handler that wraps the error in templ.Error{FileName, Line from that same expression}; R3 the emitted template body returns ctx.Err() before acquiring the buffer or writing anything; R4 the emitted body releases the buffer only in a defer, only when it acquired it, and adopts the flush error iff no earlier error; R5 in packages templ and templ/runtime every error returned by a write to / render into the writer is propagated to a return on every path (no dropped or overwritten error); R6 pooled buffers are reset (on acquisition or before release) and flushed before being returned to the pool. NOT decided: the prefix property at each byte offset, behaviour of user writers.",
 		Assumptions: []string{"bufio.Writer reports a short write as an error; a returned error aborts the caller's rendering (checked for generated callers by R1)"},
 		Trusted:     []string{"go/types", "go/parser", "x/tools go/packages, go/cfg"},
